@@ -218,8 +218,9 @@ CORPUS = {
         N("rename-scope-variable", CP, [("        scope = get_scope_name(node)\n        if scope not in self.symbols:\n            self.symbols[scope] = {}\n        local_symbols = self.symbols[scope]\n        local_symbols[name] = IC10Register(name)", "        scope_key = get_scope_name(node)\n        if scope_key not in self.symbols:\n            self.symbols[scope_key] = {}\n        local_symbols = self.symbols[scope_key]\n        local_symbols[name] = IC10Register(name)")]),
     ],
     "C16": [
-        M("one-wrong-hash", "structures_generated.py", [("    _hash = ", "    _hash = 1 + ")], ["R16.a"]),
-        M("wrapper-emits-other-opcode", "intrinsics.py", [('IC10Instruction("sqrt"', 'IC10Instruction("sqr"')], ["R16.d", "R09.a"]),
+        M("one-wrong-hash", "structures_generated.py", [("    _hash: int = 434786784", "    _hash: int = 434786785")], ["R16.a", "R16.b"]),
+        M("enum-numbers-transposed-into-duplicate", "types_generated.py", [("    PressureExternal = 7", "    PressureExternal = 8")], ["R16.c"]),
+        M("wrapper-emits-other-opcode", "intrinsics.py", [('return _IC10("sqrt", [a]', 'return _IC10("sqr", [a]')], ["R16.d", "R09.a"]),
     ],
 }
 
